@@ -288,6 +288,7 @@ func futureScenario(r *R) {
 		func() {
 			defer func() {
 				if p := recover(); p != nil {
+					passThrough(p)
 					if p == sim.Killed {
 						panic(p)
 					}
@@ -396,6 +397,7 @@ func lazyPanicScenario(r *R, ncall, slow int) {
 				func() {
 					defer func() {
 						if p := recover(); p != nil {
+							passThrough(p)
 							if p == sim.Killed {
 								panic(p)
 							}
@@ -546,6 +548,7 @@ func mapDiff[K comparable, V any](r *R, kname, vname string, keys []K, vals []V)
 		func() {
 			defer func() {
 				if p := recover(); p != nil {
+					passThrough(p)
 					panicked = true
 					pval = p
 				}
@@ -667,6 +670,7 @@ func mapDiff[K comparable, V any](r *R, kname, vname string, keys []K, vals []V)
 			func() {
 				defer func() {
 					if p := recover(); p != nil {
+						passThrough(p)
 						panicked, pval = true, p
 					}
 				}()
@@ -705,6 +709,7 @@ func mapDiff[K comparable, V any](r *R, kname, vname string, keys []K, vals []V)
 			func() {
 				defer func() {
 					if p := recover(); p != nil {
+						passThrough(p)
 						panicked = true
 						pval = p
 					}
